@@ -13,6 +13,7 @@ import (
 	"strconv"
 	"strings"
 	"sync"
+	"sync/atomic"
 	"time"
 
 	"github.com/drand/drand/v2/internal/vhook"
@@ -145,7 +146,11 @@ type Gate struct {
 	once   bool
 	used   bool
 	open   bool
+	nPark  int64
 }
+
+// NumParked returns how many goroutines are parked at the gate right now.
+func (g *Gate) NumParked() int { return int(atomic.LoadInt64(&g.nPark)) }
 
 var current *Sched
 
@@ -196,8 +201,10 @@ func (s *Sched) at(point string, args ...any) {
 		f(args)
 	}
 	if g != nil {
+		atomic.AddInt64(&g.nPark, 1)
 		g.parked <- args
 		<-g.rel
+		atomic.AddInt64(&g.nPark, -1)
 	}
 }
 
